@@ -823,7 +823,7 @@ type c15 struct{}
 func init() { register(c15{}) }
 
 func (c15) ID() string           { return "C15" }
-func (c15) Runs(tier string) int { return tierLen(tier, 400, 700) }
+func (c15) Runs(tier string) int { return tierLen(tier, 400, 320) }
 
 func (c15) Gen(r *kern.Rng, tier string, idx int) *Trace {
 	pkg := []string{"flate", "flate", "gzip", "zlib"}[r.Intn(4)]
